@@ -9,9 +9,9 @@ import subprocess
 HERE = os.path.dirname(os.path.abspath(__file__))
 
 STATUS = {
- "C01": ("desugarS/B/Else_sound, program_desugar_sound, desugarB_core, elif_order, strRel_* order lemmas, compile_preserves_meaning_partial (Safe), grouping_lost_witness, only_not_regroups (Props/C01, Sem/Core, Sem/Regroup)", "compiled program stdout/stop = re-reading model (restructuring + rustc's grouping of the emitted text + interpreter)", "CPython runs the same program; wrong results are attributed to the grouping finding only if the program is not Safe AND the re-reading model reproduces them"),
- "C02": ("accepted_body_builds_partial via bind_sim / stmt_sim / block_sim / else_sim / tyE_sim; nested_retype_accepted witness (Props/C02, Sem/CoreTyping)", "checker verdict + build outcome of 9 variants of generated bodies = chkB / rustB", "accepted ⇒ builds; 21 per-construct probes; multi-file projects through the real `incan build`"),
- "C03": ("every_position_checked (mutual), elif_was_skipped witness, reassign_immutable_rejected / reassign_mutable_accepted / fresh_name_accepted, old_checker_missed_nested, omitted_variant_reported, complete_match_accepted (Props/C03, Sem/Checker)", "single edits at every expression position / statement list of corpus + repository programs; scope depth grid; random matches", "each edit must be rejected with a diagnostic on the edited lines; documented mutability rule; coverage of match arms"),
+ "C01": ("desugarS/B/Else_sound, program_desugar_sound, desugarB_core, elif_order, strRel_* order lemmas, compile_preserves_meaning_partial (Safe), grouping_lost_witness, only_not_regroups (Props/C01, Sem/Core, Sem/Regroup)", "compiled program stdout/stop = re-reading model (restructuring + rustc's grouping of the emitted text + interpreter)", "CPython runs the same program; wrong results are attributed to the grouping finding only if the program is not Safe AND the re-reading model reproduces them; 16 feature templates outside the modelled core (classes + inheritance + overriding, traits with defaults, enums + match, Option/Result/?, f-strings, string methods, dicts, comprehensions, slices, tuples, counting-down ranges, recursion) with seeded constants, CPython as the reference (oracle only)"),
+ "C02": ("accepted_body_builds_partial via bind_sim / stmt_sim / block_sim / else_sim / tyE_sim; nested_retype_accepted witness (Props/C02, Sem/CoreTyping)", "checker verdict + build outcome of 9 variants of generated bodies = chkB / rustB", "accepted ⇒ builds; 22 per-construct probes; 24 ill-typed programs (one broken static rule each: if the checker lets one through it must still build); every sampled subset of the derives on a model and a class; multi-file projects through the real `incan build`"),
+ "C03": ("every_position_checked (mutual), elif_was_skipped witness, reassign_immutable_rejected / reassign_mutable_accepted / fresh_name_accepted, old_checker_missed_nested, omitted_variant_reported, complete_match_accepted, wrong_argument_reported, wrong_named_argument_reported, fitting_arguments_accepted (Props/C03, Sem/Checker)", "single edits at every expression position / statement list of corpus + repository programs; scope depth grid; random matches (variant names related by affix); calls with 1-4 parameters (incl. trait-typed), positional / keyword arguments = validateArgs", "each edit must be rejected with a diagnostic on the edited lines; documented mutability rule; coverage of match arms; every wrong argument reported at that argument and nothing else"),
  "C04": ("floorDiv/mod = Int.fdiv/fmod for all Int64 pairs, core=std, identity, zero divisor, no other failure", "10 streams: both integer kernels, 4 operand-type pairs of py_div/py_mod/py_floor_div, f64 wrappers", "Python `//`, `%`, `/`"),
  "C05": ("slice/index/range = CPython for all i64 (saturating step), str=list copy", "9 streams incl. both copies, range with cap, dict_get", "CPython `s[a:b:c]`, `range`; slice syntax on the real parser"),
  "C06": ("const_value_sound, const_type_sound (binConst_type), index_error_agrees, runtime_index_error_reported, slice_step_zero_agrees, static_fold_sound, ok_implies_no_repeat, cycle_is_rejected, never_out_of_fuel, resolution_terminates (Props/C06, Sem/ConstEval)", "checker on `const K = E` (verdict, type, const_values); same expression in a compiled function body; compiled consts; dependency graphs", "Python evaluates the expression; const type = body type; independent cycle DFS"),
@@ -21,14 +21,14 @@ STATUS = {
  "C10": ("8 invariance theorems over all states/continuations; reindent under monotone maps", "layout model vs real lexer kinds", "AST equality under 10 edit kinds"),
  "C11": ("get_line_info slices on boundaries, EOF, C19 ranges (partial scope)", "format_error rendering incl. long lines", "whole pipeline fuzz with watchdog"),
  "C12": ("manifest order independence", "manifest repeated with fresh hash maps", "3 processes × environments, in-process twice"),
- "C13": ("table_complete / table_sound / legal_keywords_rawable over tables REGENERATED from the source on every run, emitted_identifier_valid_partial, emit_injective, rename_preserves_binding, self_type_name_unemittable (Props/C13, Sem/Names, Generated/Keywords)", "is_keyword on every entry + near misses; one compiled program per (binding position, name)", "renamed program behaves like the plain-named one"),
+ "C13": ("table_complete / table_sound / legal_keywords_rawable over tables REGENERATED from the source on every run, emitted_identifier_valid_partial, emit_injective, rename_preserves_binding, self_type_name_unemittable (Props/C13, Sem/Names, Generated/Keywords)", "is_keyword on every entry + near misses; emitTok = spelling of a local and a struct field in the emitted Rust; one compiled program per (binding position, name); sibling names (k, k_, _k, r_k, K) bound side by side", "renamed program behaves like the plain-named one; sibling bindings keep their own values"),
  "C14": ("resolvers_agree_partial + 3 witnesses, private_rejected, exported_iff, private_decl_rejected, work-list lemmas", "both resolvers on real trees (incl. deep entries, multi-level parents), visibility verdicts, export computation on generated modules", "agreement, visibility, missing/cycle"),
  "C15": ("all_pinned, unknown_refused, deps_exact, names_nodup", "ProjectGenerator + `incan build` (stub cargo) + trigger positions", "exactness, pinning, refs ⊆ declared"),
  "C16": ("verdict_truthful, skip_not_run, xfail_inverts, filter_exact, all_selected_reported, exit_iff_failure, counts_match (Props/C16, Tool/TestRunner)", "real `incan test` on generated files (every executed test through cargo test)", "ground truth of the test bodies, -k / --slow / -x, four @skip spellings"),
  "C17": ("construction_validated_partial, rejected_argument_stops, own_methods_exempt, other_methods_checked, select_sound / select_from_underlying / select_single, nominal, alias_bypasses witness (Props/C17, Sem/Newtype)", "compiled programs: 11 declaration shapes × 19 sites × values; 6 underlying types", "hook enforced outside own methods; mixing newtypes rejected"),
  "C18": ("converges for all interleavings (ticket protocol); 3 counter-examples for the old protocol", "event-log replay", "hover = latest after quiescence"),
  "C19": ("roundtrip, strict_mono, counting, range_wellformed, terminal line; column partial", "5 streams, exhaustive small documents", "counting in Python"),
- "C20": ("roundtrip (mutual, any depth), json_field_names, type_mapping, eq_iff_structural, eq_fields, ord_lexicographic, cmpV_swap (mutual, any depth), lt_iff_gt, cmpV_refl_of_eq, hash_respects_eq, derives_closed, derives_kept (Props/C20, Sem/Derive)", "compiled programs: json_stringify + from_json, six comparison operators, Dict keys, clone; emitted #[derive] list for subsets", "Python json / tuple order; rustc supertrait closure"),
+ "C20": ("roundtrip (mutual, any depth), json_field_names, type_mapping, eq_iff_structural, eq_fields, ord_lexicographic, cmpV_swap (mutual, any depth), lt_iff_gt, cmpV_refl_of_eq, hash_respects_eq, derives_closed, derives_kept, chain_fields_in_declaration_order / chain_lookup (inherited fields, Props/C20, Sem/Derive)", "compiled programs: json_stringify + from_json, six comparison operators, Dict keys, clone (fields declared on one model/class or over a chain of 2-3 classes); emitted #[derive] list for subsets", "Python json / tuple order; rustc supertrait closure"),
 }
 
 
@@ -121,7 +121,15 @@ operators, …), not a patch.
         det = str(d.get("detected_by", "")).replace("|", "/").replace("\n", " ")[:330]
         out.append(f"| {d.get('seed_id')} | {need} | {det} |")
     out.append("""
-Every claimed property has two stored seeds (40 in total). Misses at first run and what was strengthened are
+Every claimed property has two stored seeds from round 1 (40); round 2 (seeds `-3`, `-4` of C01, C02, C03, C20: the
+sub-agents were told to stay away from the mechanisms of round 1) produced 8 more, 7 of which were MISSED at first:
+the generated programs had no classes / inheritance / counting-down ranges (C01), never contained an ill-typed
+shape or a derive list without `Eq` (C02), named enum variants V0..V4 and called one-parameter functions (C03),
+and never declared fields over an `extends` chain (C20). Each miss was answered by widening the generator and,
+where the mechanism was not modelled yet, by a model + theorem (validateArgs / wrong_argument_reported;
+classFields / chain_fields_in_declaration_order; emitTok spelling tie and sibling names for C13). Widening them
+exposed four more genuine defects, all repaired (`mut self` method on an immutable receiver, `mut` parameters,
+trait-typed parameters accepting anything, cyclic `extends` overflowing the stack). Misses at first run and what was strengthened are
 recorded in each `meta.json` (`detected_by`): C03-1/2, C06-1/2 (only the correspondence broke; oracles added), C08-2,
 C09-2, C11-1/2, C12-2, C14-1/2, C15-2, C16-1/2. Sub-agents also reported pre-existing defects, several of which became
 `fix:` commits (compound field assignment grouping, `elif` scanners, trait-method diagnostic order, newtype hook over
@@ -146,6 +154,9 @@ Corrected false alarms (the machinery was wrong, the code was right; never liste
 * C03 harness: spans of block-bodied expressions include the trailing line break, and spans inside f-string
   interpolations are relative to the f-string — edits through them landed elsewhere; trimmed / routed through a
   statement rule instead (the relative locations themselves are a recorded finding).
+* runner watchdog: a compiled program that missed the 10 s limit was reported as a C17 violation while three cargo
+  builds were saturating the machine; the pipes are now drained while the program runs and a program that misses
+  the short limit is run once more with 90 s before a timeout is reported.
 * C01 oracle (thorough tier): programs whose integers leave the i64 range have no documented meaning (Python
   continues with big integers, the compiled program wraps); they are detected through the Python run and dropped
   before the correspondence, counted in the evidence.
